@@ -390,3 +390,49 @@ Theorem C14_wrapper_reject_maxgap : forall {T} (N : NumOps T) ie oe ec conv
   (mg < VAR2H_PY_MAXGAP_MIN)%Z -> py_var2h N ie oe ec conv u off raw vals P mg rain = PyErr.
 Proof. exact @py_reject_maxgap. Qed.
 Print Assumptions C14_wrapper_reject_maxgap.
+
+(* ================================================================== *)
+(* The same property on the REGENERATED program: [program] is the MiniC  *)
+(* translation of the C kernel produced from the tree under test on      *)
+(* every run (Gen/KernelsAst.v); [exec_fun] its interpreter (MiniC.v).   *)
+(* ================================================================== *)
+From Coq Require Import String Lia.
+From Hy Require Import Base.MiniC Gen.KernelsAst Proofs.RefineVar2h.
+Open Scope string_scope.
+Open Scope list_scope.
+Open Scope Z_scope.
+
+(* c_var2h = the model over the reals with NaN (the instance of the theorems above): any
+   period, rainfall flag, display flag, maxgap, start, any stamps (unsorted included), any
+   values, any number of output periods (0 included).  Where the model answers VUndef
+   (no stamp after hstartsec) the repaired kernel is defined: a positive code on an empty
+   series, NaN in every period but the last otherwise. *)
+Theorem C14_kernel_var2h_refines_model :
+  forall P rain disp maxgap hstart sec (vals hinit : list (option R)) n,
+  List.length vals = List.length sec ->
+  (Nat.max (List.length sec) (List.length hinit) < n)%nat ->
+  match c_var2h_RN true P rain maxgap hstart sec vals hinit with
+  | VUndef =>
+      (sec = [] -> exists code, 0 < code /\
+         exec_fun RN XRN program (S n) "c_var2h" (var2h_args P rain disp maxgap hstart sec vals hinit)
+         = Ok (RI code, [VArrI sec; VArrF vals; VArrF hinit])) /\
+      (sec <> [] ->
+         exec_fun RN XRN program (S n) "c_var2h" (var2h_args P rain disp maxgap hstart sec vals hinit)
+         = Ok (RI 0, [VArrI sec; VArrF vals; VArrF (nan_fill RN hinit)]))
+  | VErr =>
+      exists code h', 0 < code /\ List.length h' = List.length hinit /\
+        exec_fun RN XRN program (S n) "c_var2h" (var2h_args P rain disp maxgap hstart sec vals hinit)
+        = Ok (RI code, [VArrI sec; VArrF vals; VArrF h'])
+  | VOk h =>
+      exec_fun RN XRN program (S n) "c_var2h" (var2h_args P rain disp maxgap hstart sec vals hinit)
+      = Ok (RI 0, [VArrI sec; VArrF vals; VArrF h])
+  end.
+Proof. exact refine_c_var2h_RN. Qed.
+Print Assumptions C14_kernel_var2h_refines_model.
+
+(* the argument list of the kernel as the Cython wrapper builds it *)
+Example C14_kernel_var2h_args : forall P rain disp maxgap hstart sec (vals hinit : list (option R)),
+  var2h_args P rain disp maxgap hstart sec vals hinit =
+  [AVI (MiniC.zlen sec); AVI (MiniC.zlen hinit); AVI P; AVI rain; AVI disp; AVI maxgap;
+   AVArrI sec; AVArrF vals; AVI hstart; AVArrF hinit].
+Proof. reflexivity. Qed.
